@@ -1,7 +1,7 @@
 (* C06 — Every valid RFC 9535 query is accepted by the parser.  Statements only.
    The whole-language statement is kept visible and is NOT proved (partial): *)
 From Coq Require Import List NArith ZArith Bool.
-From JP Require Import Base Ast Peg Dec2Bin Known Build Concrete BuildFacts.
+From JP Require Import Base Ast Peg Dec2Bin Known Build Concrete BuildFacts NormPath Reference NpParse NpBuild.
 From JP.gen Require Import Grammar.
 Import ListNotations.
 
@@ -22,6 +22,24 @@ Theorem C06_typing_partial : forall f,
   end.
 Proof. exact try_new_accepts_well_typed. Qed.
 Print Assumptions C06_typing_partial.
+
+(* proved part, whole pipeline (generated grammar run by the PEG interpreter, then parser.rs): an
+   infinite sublanguage is accepted and read as the right AST -- every Normalized Path, for every
+   number of steps, every name made of Unicode scalar values that need no escaping (any length)
+   and every index up to 2^53-1.  The proof executes the grammar of THIS run symbolically
+   (NpParse.v), so an edit of the .pest file that changes how such a path is read breaks it. *)
+Theorem C06_normalized_paths_partial : forall l,
+  Forall plain_step l -> Forall step_in_range l -> parse_query (np l) = POk (np_query l).
+Proof. exact parse_np. Qed.
+Print Assumptions C06_normalized_paths_partial.
+
+Example C06_normalized_paths_example :
+  let l := [SName [97; 32; 233; 128512]%N; SIdx 0; SIdx 1234; SName []] in
+  Forall plain_step l /\ Forall step_in_range l /\ parse_query (np l) = POk (np_query l).
+Proof.
+  split; [repeat constructor|]. split; [repeat constructor; unfold MAX_VAL; cbn; discriminate|].
+  vm_compute. reflexivity.
+Qed.
 
 (* the parser model, over the grammar generated from the .pest file of this run, accepts the
    RFC's own examples and builds the reference AST (evaluated inside Coq: a test, not the
